@@ -120,6 +120,7 @@ MUTANTS = [
     M('sema:cast:node-dropped', 'sema', ['C08'], 'expr_to_asg_texpr', 'Some(asg::Cast::new(expr.unwrap(), typ).to_texpr())', 'Some(expr.unwrap())'),
     M('sema:operand:indexed-bit-accepted', 'sema', ['C13'], 'gate_operand_to_asg_texpr', 'if !matches!(typ, Type::QubitArray(_)) {', 'if !matches!(typ, Type::QubitArray(_) | Type::BitArray(..)) {'),
     M('sema:assign:const-element-not-reported', 'sema', ['C13'], 'assignment_stmt_to_asg_stmt', 'matches!(typ, Type::BitArray(_, IsConst::True))', 'false'),
+    M('sema:block:break-statements-dropped', 'sema', ['C06'], 'block_expr_to_asg_stmt_list', '.filter_map(|syn_stmt| stmt_to_asg_stmt(syn_stmt, context))', '.filter_map(|syn_stmt| { let r_ = stmt_to_asg_stmt(syn_stmt, context); if let Some(asg::Stmt::Break) = r_ { None } else { r_ } })'),
     # ---- PARSER marker discipline
     M('parser:marker:complete-wrong-slot', 'parser', ['C01', 'C02'], 'Marker::complete', 'let idx = self.pos as usize;', 'let idx = (self.pos as usize) + 1;'),
     M('parser:marker:abandon-always-pops', 'parser', ['C01', 'C02'], 'Marker::abandon', 'if idx == p.events.len() - 1 {', 'if idx <= p.events.len() - 1 {'),
